@@ -1136,7 +1136,16 @@ func validateModels(pl *pool, ov *overlaySet, cfgs map[string]propCfg, all []*ex
 			}
 			no := outs[i]
 			if res.Status != no.Status && !(res.Status == "violation" && no.Status == "assert") {
-				mismatches = append(mismatches, fmt.Sprintf("%s: engine status %s (%s) vs native %s/%s %s", it.st.Harness, res.Status, res.Detail, no.Status, no.ID, no.Detail))
+				// keep the case: a model on which the real build and the encoding disagree
+				dir := envOr("VERIF_REPLAY_DIR", filepath.Join(verifDir, "replays"))
+				os.MkdirAll(dir, 0755)
+				mf := filepath.Join(dir, fmt.Sprintf("mismatch-%s-%d.json", it.st.Harness, len(mismatches)))
+				js, _ := json.MarshalIndent(map[string]interface{}{
+					"property": "", "harness": it.st.Harness, "pkg": pkg, "kind": no.Status, "id": no.ID, "detail": no.Detail,
+					"inputs": it.m.Inputs, "choices": it.m.Choices, "params": it.st.Params,
+				}, "", " ")
+				os.WriteFile(mf, js, 0644)
+				mismatches = append(mismatches, fmt.Sprintf("%s: engine status %s (%s) vs native %s/%s %s [case: %s]", it.st.Harness, res.Status, res.Detail, no.Status, no.ID, no.Detail, mf))
 				continue
 			}
 			if strings.Join(res.Observed, "\n") != strings.Join(no.Observed, "\n") {
